@@ -244,6 +244,46 @@ macro_rules! battery {
 battery!(work, astro_work);
 battery!(head, astro_head);
 
+/// What a property looks at in a battery's output. C15 (validation): only whether each constructor / setter returned Ok, and the
+/// text of the error otherwise - not the value (that is C09 / C01 / C08). C19 (never a crash): only the outcome class of each
+/// lookup (Ok / Err / PANIC) - not the offset (that is C18). Every other property compares the full output.
+fn project(prop: &str, s: &str) -> String {
+    if prop != "C15" && prop != "C19" {
+        return s.to_string();
+    }
+    let b: Vec<char> = s.chars().collect();
+    let mut out = String::new();
+    let mut i = 0;
+    let starts = |i: usize, w: &str| -> bool { let w: Vec<char> = w.chars().collect(); i + w.len() <= b.len() && b[i..i + w.len()] == w[..] };
+    let skip_group = |mut j: usize| -> usize {
+        // j is at '(' : returns the index after the matching ')'
+        let mut depth = 0;
+        while j < b.len() {
+            if b[j] == '(' { depth += 1; }
+            if b[j] == ')' { depth -= 1; if depth == 0 { return j + 1; } }
+            j += 1;
+        }
+        b.len()
+    };
+    while i < b.len() {
+        let word_start = i == 0 || !b[i - 1].is_alphanumeric();
+        if word_start && starts(i, "Ok(") {
+            out.push_str("Ok;");
+            i = skip_group(i + 2);
+        } else if word_start && starts(i, "Err(") {
+            let j = skip_group(i + 3);
+            if prop == "C15" { out.extend(b[i..j].iter()); out.push(';'); } else { out.push_str("Err;"); }
+            i = j;
+        } else if word_start && starts(i, "PANIC") {
+            out.push_str("PANIC;");
+            i += 5;
+        } else {
+            i += 1;
+        }
+    }
+    out
+}
+
 fn guarded(f: impl FnOnce() -> String + panic::UnwindSafe) -> String {
     match panic::catch_unwind(f) {
         Ok(s) => s,
@@ -299,8 +339,9 @@ fn main() {
         let c = Case { a: v[0], b: v[1], c: v[2], d: v[3], e: v[4], f: v[5] };
         let p = args[2].clone();
         let p2 = p.clone();
-        println!("head: {}", guarded(move || head::run(&p, &c)));
-        println!("work: {}", guarded(move || work::run(&p2, &c)));
+        let p3 = p.clone();
+        println!("head: {}", project(&p3, &guarded(move || head::run(&p, &c))));
+        println!("work: {}", project(&p3, &guarded(move || work::run(&p2, &c))));
         return;
     }
     if args.len() < 4 {
@@ -313,8 +354,8 @@ fn main() {
     for _ in 0..n {
         let c = gen(&prop, &mut rng);
         let (p1, p2) = (prop.clone(), prop.clone());
-        let h = guarded(move || head::run(&p1, &c));
-        let w = guarded(move || work::run(&p2, &c));
+        let h = project(&prop, &guarded(move || head::run(&p1, &c)));
+        let w = project(&prop, &guarded(move || work::run(&p2, &c)));
         if h != w {
             println!("{{\"property\":\"{}\",\"case\":[{},{},{},{},{},{}],\"head\":{:?},\"work\":{:?}}}", prop, c.a, c.b, c.c, c.d, c.e, c.f, h, w);
             return;
